@@ -70,9 +70,9 @@ ASSUMPTIONS = ["coefficients are real; bits are 0/1; the eigenvalue of Z on bit 
                "complex with zero imaginary part, a Fraction, or a numpy integer / float / complex scalar: numpy float32 / complex64 "
                "coefficients make the library compute in float32 (numpy keeps the narrower type against Python floats), so they are "
                "generated with dyadic values and 2^k <= 64 shots, where every intermediate result is exactly representable",
-               "KNOWN FINDING frequencies-narrow-numpy-int-total-wraps: get_expectation_value_from_frequencies with frequencies given as "
+               "REPAIRED in /repo (f136005; a corpus case holds it): get_expectation_value_from_frequencies with frequencies given as "
                "numpy integers of a width their TOTAL does not fit (sum() of numpy scalars wraps: {'01': np.uint8(200), '11': np.uint8(100)} "
-               "gives 2.27); one corpus case holds it, generated typed frequencies have totals inside the type",
+               "gave 2.27); generated typed frequencies still have totals inside the type",
                "degenerate denominators (recorded on the unchanged library): one shot with use_bessel_correction=True reports correct values and "
                "correlations and a covariance matrix whose every entry is nan+nanj (0/0; also for constant-only operators); 0 shots: "
                "get_expectation_values raises IndexError with either flag (nothing reported), get_parities_from_measurements raises IndexError "
@@ -243,8 +243,8 @@ def corpus():
         # pair tallies on unsigned bits (wrapped around before the repair 4a0b079 in /repo)
         {"kind": "parities", "shots": ["11", "00", "11", "01"], "bit_ty": "uint8", "terms": [_t(1, z(0, 1)), _t(2, z(1))]},
         {"kind": "parities", "shots": ["11", "00", "11", "01"], "bit_ty": "arr:uint8", "terms": [_t(1, z(0, 1)), _t(2, z(1))]},
-        # KNOWN FINDING (not generated otherwise): uint8 frequencies whose total leaves the type
-        {"kind": "freq", "marked": [0], "freq": [["01", 200], ["11", 100]], "freq_as": "np:uint8!", "finding_class": "frequencies-narrow-numpy-int-total-wraps"},
+        # uint8 frequencies whose total leaves the type (summed in uint8 and wrapped before the repair f136005 in /repo)
+        {"kind": "freq", "marked": [0], "freq": [["01", 200], ["11", 100]], "freq_as": "np:uint8!"},
         {"kind": "freq", "marked": [1, 0], "freq": [["01", 100], ["11", 27], ["10", 0]], "freq_as": "np:int8", "marked_as": "nptuple"},
         {"kind": "parity_vec", "rows": ["111", "110", "000"], "marked": [0, 1, 2], "dtype": "bool"},
         # ---- degenerate denominators: one shot with Bessel's correction (divisor N - 1 = 0) for several terms with a constant among
